@@ -17,4 +17,4 @@ open Pcore.Lat
 #print axioms C04_accepts_complete_fails_scalar
 #print axioms C04_accepts_complete_fails_object
 #print axioms C04_dtype_full_fails_emptykey
-#print axioms C04_common_full_fails_iterable
+#print axioms C04_common_iterable_repaired
